@@ -237,6 +237,10 @@ def srun (f : Nat) : SSt α → List (XOp α) → List (Option (Obs α))
 
 def SSt.empty : SSt α := ⟨[], []⟩
 
+/-- what the reader `pos` items behind the start of a shared sequence (items delivered so far `buf`, events
+    still to deliver `es`) has in front of it: the stored items it has not read yet, then `es` -/
+def viewOf (es : List (Ev α)) (buf : List α) (pos : Nat) : List (Ev α) := (buf.drop pos).map Except.ok ++ es
+
 /-- a pool in which nothing is shared is a pool of event lists -/
 def SSt.lists (st : SSt α) : XPool α :=
   st.pool.map fun x => match x with
